@@ -164,6 +164,9 @@ func c14BuildHistPool() ([]c14HistProg, map[string][]int) {
 		add("call-depth", src)
 	}
 
+	// round 5 (c14_r5.go): types declared in nested scopes / resolved from nested scopes
+	c14R5HistGroups(add)
+
 	// everything aimed at per-node data and the shared literals
 	for _, f := range c14Features {
 		add("misc", f)
@@ -326,6 +329,11 @@ func c14RunHist(c *wk.Case) {
 	case c.Index%10 == 6:
 		mode = "call-depth"
 		pick(c14HistByGroup["call-depth"], k)
+	case c.Index%10 == 8:
+		// programs that declare the types ST, SU in nested scopes and programs that
+		// resolve these names from nested scopes (c14_r5.go), in one process
+		mode = "nested-scope-types"
+		pick(c14HistByGroup["nested-scope-types"], k)
 	case r < 12:
 		g := c14HistGroupNames[c.Rng.Intn(len(c14HistGroupNames))]
 		pick(c14HistByGroup[g], k)
